@@ -87,6 +87,7 @@ func c01(r *core.Run) {
 	r.Rule("H1", "restart safety (start/stop/start histories): Shutdown declares the service stopped only after a synchronous, unconditional WaitGroup.Wait for all workers, and serve re-creates the group registry before any worker of the new run starts - so a callback of the previous run cannot overlap one of the next", 2)
 	r.Rule("F1", "funnel: every callback-kind dynamic call (handlers, With*/query callbacks, queue elements) is reachable only through the closure handed to enqueue / the drain loop; documented exceptions are named", 6)
 	r.Rule("F3", "group value: the routed Match.Group is toString(the matched node's group template, name tokens re-sliced at the match record's mount index), and the record's node, mount index and params are written together at each accept site (the obligations of C06.R4): a stale or early-written mount index evaluates ${tags} on the wrong tokens, so resources meant to share a worker group get different ids and run concurrently", 6)
+	r.Rule("F5", "the group id is computed from the request's own tokens (shared with C06.R6): the lookup that evaluates the group template writes no shared state - with a token buffer kept in the Mux two overlapping lookups (listener and With / Resource on another goroutine) mix their tokens and a callback is queued under another resource's group, where it runs beside the callbacks of its own group", 1)
 	r.Rule("F4", "group template evaluation (the group-tag obligations of C06.R2): in the function that turns a group template into the worker id the index of a ${tag} part is used for nothing but indexing the mount-rebased tokens - never compared with a constant or used in arithmetic; whether a part is a tag is decided by its string (index 0 is a valid tag position), so a test on the index would give a handler whose tag sits on the first token the empty group, i.e. no serialisation at all", 1)
 	r.Rule("F2", "group argument: at every call site of enqueue the group id is the routed Match.Group (resource name when no match), a Resource's Group(), or WithGroup's own parameter; resource.group is only written from Match.Group and Match.Group only from the registered group's toString", 8)
 
@@ -146,6 +147,7 @@ func c01(r *core.Run) {
 	if ro := resolveMuxRolesFor(r, "F3"); ro != nil {
 		c06MatchAssembly(r, "F3", root, ro)
 		c06Units(r, "F4", root, ro, true)
+		c06PureLookup(r, "F5")
 	}
 	c01GroupArg(r, a, root)
 }
@@ -1325,11 +1327,7 @@ func c01Restart(r *core.Run, rule string, a *svcAnchors, root []*ssa.Function) {
 	p := r.P
 	ops, _ := stateOps(root, a)
 	var started int64 = -1
-	for _, op := range ops {
-		if op.Op == "store" && op.Fn == a.Serve {
-			started = op.New
-		}
-	}
+	started = startedConst(p, a, ops)
 	var shutdown *ssa.Function
 	var storeStopped ssa.Instruction
 	for _, op := range ops {
